@@ -174,10 +174,12 @@ class GOMoveIterationBoundariesInsideKernelTrans(Transformation):
 
         # Now that the boundaries are inside the kernel, the looping should go
         # through all the field points
-        inner_loop.field_space = "go_every"
-        outer_loop.field_space = "go_every"
+        # (the iteration space is set first as a user-defined one need not
+        # be defined for 'go_every' fields)
         inner_loop.iteration_space = "go_all_pts"
         outer_loop.iteration_space = "go_all_pts"
+        inner_loop.field_space = "go_every"
+        outer_loop.field_space = "go_every"
 
         # Update Kernel
         kschedule = node.get_kernel_schedule()
